@@ -235,7 +235,11 @@ func c05Explore(src *choice.Src) *core.Result {
 			res.Fail("C05", "fault-surfaces", "Create succeeded although an I/O fault was delivered to it", "faults delivered: %v; files %v", d, pathsOfList(list))
 			return c05Done(res, t, mod.m, faultClass)
 		}
-		if cfErr == nil && !hardFault && cerr != nil {
+		if cfErr == nil && !hardFault && cerr != nil && len(shrunk) > 0 {
+			// the property promises success only for files whose content has the size they report; a file
+			// that shrank after Lstat may be refused (the unchanged code accepts it and archives what it read)
+			res.Probes["create-refused-a-shrunk-file"]++
+		} else if cfErr == nil && !hardFault && cerr != nil {
 			res.Fail("C05", "create-iff-check", "Create failed although the file check passed and no fault was delivered", "Create error: %v (planned faults did not reach it: %v)", cerr, d)
 			return c05Done(res, t, mod.m, faultClass)
 		}
